@@ -591,6 +591,13 @@ def MAX_SAFE : Int := 9007199254740991
 /-- `js_unsafe` (encode.py:176-177) -/
 def jsUnsafe (n : Num) : Bool := (Num.ofInt MAX_SAFE).lt n || n.lt (Num.ofInt (-MAX_SAFE))
 
+/-- non-zero and below the smallest normal double `2^-1022` (`MIN_NORMAL_FLOAT`, encode.py): `float(d)` would
+underflow or lose digits, so `from_decimal` publishes the string -/
+def decTiny (n : Num) : Bool := n.mant != 0 && decide (n.mant.natAbs * 2 ^ 1022 < 10 ^ n.exp)
+
+/-- `from_decimal` publishes `str(d)` instead of a number (encode.py:139-152) -/
+def decAsString (n : Num) : Bool := jsUnsafe n || decTiny n
+
 mutual
 /-- `json.loads(json.dumps(r, cls=JSONEncoder))` -/
 def encode (r : PV) : Json :=
@@ -599,7 +606,7 @@ def encode (r : PV) : Json :=
   | .bool b => .bool b
   | .int i => .num (Num.ofInt i)
   | .float n => .num n
-  | .dec n s => if jsUnsafe n then .str s else .num n      -- from_decimal (encode.py:139-149)
+  | .dec n s => if decAsString n then .str s else .num n   -- from_decimal (encode.py:139-152)
   | .decSpecial s => .str s
   | .str s => .str s
   | .bytes s => .str s
@@ -813,10 +820,11 @@ end
 /-! ## the two ways a published value is known to fall outside its schema (known findings) -/
 
 mutual
-/-- no `Decimal` in `r` is published as a string (`from_decimal`: js-unsafe magnitude, NaN, ±Infinity) -/
+/-- no `Decimal` in `r` is published as a string (`from_decimal`: js-unsafe magnitude, below the normal float range,
+NaN, ±Infinity) -/
 def safeDecimals (r : PV) : Bool :=
   match r with
-  | .dec n _ => !jsUnsafe n
+  | .dec n _ => !decAsString n
   | .decSpecial _ => false
   | .enumv v => safeDecimals v
   | .list xs => safeList xs
